@@ -75,8 +75,8 @@ func run(c *fw.Ctx) {
 	}
 	wls := []wl{
 		{"mini", "AAAWAAAW", 2},
-		{"mini", "WAAWWAW", 1},  // with Writes while nothing is pending
-		{"mini", "AAWAA", 2},    // records pending at Close
+		{"mini", "WAAWWAW", 1}, // with Writes while nothing is pending
+		{"mini", "AAWAA", 2},   // records pending at Close
 		{"person", "AAAWAAAW", 2},
 		{"person", "AAW", 0},
 	}
